@@ -105,7 +105,8 @@ def run_plan(plan, behaviour, policy, line_level, observer=True):
                         raise PlannedFailure(self.jid)
                     sched.yield_('job_body')
                 finally:
-                    events.append({'e': 'end', 'kind': self.kind, 'j': self.jid})
+                    if not sched.abort:
+                        events.append({'e': 'end', 'kind': self.kind, 'j': self.jid})
 
             def request_stop(self):
                 pass
